@@ -7,6 +7,7 @@
 import GunYu.Proofs.ResumedWire
 import GunYu.Proofs.Restart
 import GunYu.Proofs.Nested
+import GunYu.Proofs.RunId
 import GunYu.Proofs.TxnShape
 
 namespace GunYu.Sender
@@ -658,6 +659,122 @@ theorem dataB_bodies (out : List Batch) (hwf : AllWF out) : dataB (bodies out) =
     simp only [bodies, List.flatMap_cons, dataOut, dataB_append] at ih ⊢
     rw [dataB_stripB b (hwf b (List.mem_cons_self ..)),
       ih (fun x hx => hwf x (List.mem_cons_of_mem _ hx))]
+
+
+/-! ### the database of a stored position is a real (non-negative) database -/
+
+/-- a `select` the parser hands over selects a mapped database -/
+theorem parseStep_emit_select_db (c : PCfg) (s : PState) (r : Raw) (i : Item)
+    (hsel : r.cmd = bSelect → ∀ a n, r.args = [a] → atoi? a = some n → 0 ≤ n)
+    (hmapnn : ∀ n : Int, 0 ≤ n → 0 ≤ mapDb c n)
+    (h : (parseStep c s r).2 = POut.emit i) (hi : i.cmd = bSelect) : 0 ≤ i.db := by
+  have hcmd := parseStep_emit_cmd c s r i h
+  have hs : r.cmd = bSelect := by rw [← hcmd]; exact hi
+  have hne : bSelect ≠ bPing := by decide
+  unfold parseStep at h
+  simp only [hs, hne, ↓reduceIte] at h
+  cases ha : r.args with
+  | nil => simp [ha] at h
+  | cons a rest =>
+    cases rest with
+    | cons _ _ => simp [ha] at h
+    | nil =>
+      simp only [ha] at h
+      cases hn : atoi? a with
+      | none => simp [hn] at h
+      | some n =>
+        simp only [hn] at h
+        have h0 : 0 ≤ n := hsel hs a n ha hn
+        cases hdb : c.filterDb n
+        · simp only [hdb, Bool.false_eq_true, ↓reduceIte] at h
+          cases hf : c.filterCmdKey bSelect [a] with
+          | none => simp [hf] at h
+          | some x =>
+            simp only [hf, ge_iff_le, h0, ↓reduceIte] at h
+            by_cases hch : (selectDB c s.currentDB n).2 = true
+            · simp only [hch, ↓reduceIte, POut.emit.injEq] at h
+              rw [← h]
+              have hn1 : n ≠ -1 := by omega
+              simp only [selectItem, selectDB, hn1, ↓reduceIte]
+              exact hmapnn n h0
+            · simp [hch] at h
+        · simp [hdb] at h
+
+theorem parseAll_select_db_nonneg (c : PCfg) (raws : List Raw) (s : PState)
+    (hsel : ∀ r ∈ raws, r.cmd = bSelect → ∀ a n, r.args = [a] → atoi? a = some n → 0 ≤ n)
+    (hmapnn : ∀ n : Int, 0 ≤ n → 0 ≤ mapDb c n) :
+    ∀ i ∈ parseAll c s raws, SelOK i ∧ (i.cmd = bSelect → 0 ≤ i.db) := by
+  induction raws generalizing s with
+  | nil => intro i hi; simp [parseAll] at hi
+  | cons r rest ih =>
+    intro i hi
+    simp only [parseAll] at hi
+    have hselr := hsel r (List.mem_cons_self ..)
+    have hsel' : ∀ r' ∈ rest, r'.cmd = bSelect → ∀ a n, r'.args = [a] → atoi? a = some n → 0 ≤ n :=
+      fun r' hr' => hsel r' (List.mem_cons_of_mem _ hr')
+    cases hps : parseStep c s r with
+    | mk s' o =>
+      rw [hps] at hi
+      cases o with
+      | fail => simp at hi
+      | skip => exact ih s' hsel' i hi
+      | emit i0 =>
+        simp only at hi
+        have hemit : (parseStep c s r).2 = POut.emit i0 := by rw [hps]
+        rcases List.mem_cons.mp hi with rfl | hi'
+        · exact ⟨parseStep_emit_selOK c s r _ hselr hemit,
+            parseStep_emit_select_db c s r _ hselr hmapnn hemit⟩
+        · exact ih s' hsel' i hi'
+
+/-- executing items whose selects select non-negative databases, from a
+    non-negative database, ends in a non-negative database -/
+theorem seqApplied_db_nonneg (items : List Item) (cur : Int) (hcur : 0 ≤ cur)
+    (h : ∀ i ∈ items, SelOK i ∧ (i.cmd = bSelect → 0 ≤ i.db)) :
+    0 ≤ (seqApplied cur (itemCmds items)).1 := by
+  induction items generalizing cur with
+  | nil => simpa [itemCmds, seqApplied] using hcur
+  | cons i rest ih =>
+    have hrest := fun j hj => h j (List.mem_cons_of_mem _ hj)
+    by_cases hb : itemCmds.isBracketOrPingB i.cmd = true
+    · rw [itemCmds_cons_bracket i rest hb]; exact ih cur hcur hrest
+    · have hb' : itemCmds.isBracketOrPingB i.cmd = false := by simpa using hb
+      rw [itemCmds_cons_data i rest hb']
+      simp only [seqApplied]
+      split
+      · rename_i hs
+        obtain ⟨hok, hnn⟩ := h i (List.mem_cons_self ..)
+        have : selArg cur i.args = i.db := hok hs cur
+        rw [this]
+        exact ih _ (hnn hs) hrest
+      · exact ih cur hcur hrest
+
+theorem mapDb_nonneg (c : PCfg) (ht : c.targetDb = -1) (hm : ∀ p ∈ c.dbMap, 0 ≤ p.2) :
+    ∀ n : Int, 0 ≤ n → 0 ≤ mapDb c n := by
+  intro n hn
+  unfold mapDb
+  simp only [ht, ne_eq, not_true_eq_false, ↓reduceIte]
+  cases hl : c.dbMap.lookup n with
+  | none => show 0 ≤ n; exact hn
+  | some t =>
+    show 0 ≤ t
+    exact hm _ (lookup_mem _ _ _ hl)
+
+theorem mapDb_ne_of_nonneg (c : PCfg) (h : ∀ n : Int, 0 ≤ n → 0 ≤ mapDb c n) :
+    ∀ n : Int, 0 ≤ n → mapDb c n ≠ -1 := by
+  intro n hn; have := h n hn; omega
+
+/-- offsets of a resumed parser's items are non-negative when the start is -/
+theorem nonNeg_of_items (evs : List Ev) (h : ∀ i ∈ itemsOf evs, 0 ≤ i.offset) : NonNeg evs := by
+  induction evs with
+  | nil => trivial
+  | cons e rest ih =>
+    cases e with
+    | item it =>
+      exact ⟨h it (by simp [itemsOf]), ih (fun i hi => h i (by simp [itemsOf, hi]))⟩
+    | batchTick => exact ih (fun i hi => h i (by simpa [itemsOf] using hi))
+    | keepaliveTick => exact ih (fun i hi => h i (by simpa [itemsOf] using hi))
+    | cpTick => exact ih (fun i hi => h i (by simpa [itemsOf] using hi))
+    | done => exact ih (fun i hi => h i (by simpa [itemsOf] using hi))
 
 /-- every request of the stripped wire is plain -/
 theorem bodies_plain (out : List Batch) (hwf : AllWF out) : ∀ r ∈ bodies out, Plain r = true := by
